@@ -139,7 +139,11 @@ def run(ctx):
                 pi = probes[i]
 
                 def failed(atom, truth, pi=pi):
-                    return atom is pi and not truth
+                    if atom is pi and not truth:
+                        return True
+                    # `!x.is_directory() && x.exists()`: the probe also fails when x is a directory
+                    return atom is not None and atom.get("k") == "call" and callee_short(atom) == "is_directory" and "this" in atom and "this" in pi \
+                        and show(atom["this"]) == show(pi["this"]) and truth
                 # both probes need the same angle mode: exclude the other mode's (infeasible) paths
                 mode_cut = e_angle_true if seq[j][0] is False else (e_angle_false if seq[j][0] is True else [])
                 ok = G.gated(fi, rets[j], G.edges_where(fi, failed) + mode_cut)
